@@ -299,7 +299,11 @@ def run_threads(cfg, preempt=None, opcode=False):
     for all threads (one trampoline), "ct"/"cts" = one CurrentThreadScheduler object / the singleton (a trampoline per thread)"""
     ctl = Ctl(targets=TR_FILES, preempt=preempt, opcode=opcode, max_steps=cfg.get("max_steps", 8000))
     LItem, LPQ, LTramp = make_classes(lambda e: ctl.ev(*e), lambda: ctl.clock, lambda: ctl.me().idx)
-    patches = ctl.disposable_patches() + tramp_patches(LItem, LPQ, LTramp, lambda: ctl.Lock("tr"), lambda l=None: ctl.Condition(l, "trc"), ctl.now)
+    def logged_now():
+        ctl.ev("now_read", ctl.clock)
+        return ctl.now()
+
+    patches = ctl.disposable_patches() + tramp_patches(LItem, LPQ, LTramp, lambda: ctl.Lock("tr"), lambda l=None: ctl.Condition(l, "trc"), logged_now)
     with ctl.patched(patches), fresh_singleton_local():
         kind = cfg["kind"]
         shared = make_scheduler("tramp") if kind == "shared" else (make_scheduler("ct") if kind == "ct" else None)
@@ -330,9 +334,14 @@ def labels_of(res):
     """observed events -> [[thread, label]] in the vocabulary of the Lean driver's `stepLabel`, + structural problems"""
     out, problems = [], []
     open_sec = {}
+    first_read = {}  # thread -> (position, clock) of its first unlocked clock read since its last label
     for pos, e in enumerate(res["events"]):
         t, k = e[0], e[1]
         if t is None:
+            continue
+        if k == "now_read":
+            if t not in open_sec and t not in first_read:
+                first_read[t] = (pos, e[2])
             continue
         if k == "acq" and e[2] == "tr":
             if t in open_sec:
@@ -350,6 +359,7 @@ def labels_of(res):
             if k == "wait":
                 wait = res["events"][pos][3]  # timeout in us
                 wait = None if wait is None else ("rel", wait)
+            first_read.pop(t, None)
             out.append((s["start"], t, ["sec", enq[0] if enq else None, deq, sets[-1] if sets else None, clr[0] if clr else None, wait, pos]))
             if k == "wait":
                 open_sec[t] = {"start": pos, "evs": [], "after_wait": True}
@@ -366,8 +376,11 @@ def labels_of(res):
         if k in GUARDED and not (k == "pq_len" and False):
             problems.append(f"{k} outside the trampoline lock by thread {t}")
         elif k == "sched":
-            out.append((pos, t, ["sched", e[2], e[3], e[4]]))
+            # the model's `sched` step is the moment `schedule*` reads the clock to compute dt, not the item's construction
+            rp, rc = first_read.pop(t, (pos, e[4]))
+            out.append((rp, t, ["sched", e[2], e[3], rc]))
         elif k in ("start", "fin", "skip", "cancel", "tick"):
+            first_read.pop(t, None)
             out.append((pos, t, [k, e[2]]))
     for t in open_sec:
         problems.append(f"section left open by thread {t}")
